@@ -118,13 +118,26 @@ def reverseId (s : Bytes) : Option Bytes :=
   | some b => some (b64 b.reverse)
   | none => none
 
-def Kind.encodeName : Kind → Bytes
+/-- `sessionCookieNames`: what is appended to both cookie names when a block key is
+configured (`bk ≠ []`): `"/" ++ hex(MAC(hashKey, "block-key|" ++ blockKey))`.  The names are
+only ever MAC input, so this binds the block key to every tag. -/
+def nameSuffix (mac : Mac) (hashKey bk : Bytes) : Bytes :=
+  if blockKeyBoundToNames ∧ ¬ bk.isEmpty then
+    Bytes.ascii blockKeyNameSep ++ Bytes.toHex (mac hashKey (Bytes.ascii blockKeyBindingPrefix ++ bk))
+  else []
+
+def Kind.encodeBase : Kind → Bytes
   | .priv => Bytes.ascii encodePrivateName
   | .pub => Bytes.ascii encodePublicName
 
-def Kind.decodeName : Kind → Bytes
+def Kind.decodeBase : Kind → Bytes
   | .priv => Bytes.ascii decodePrivateName
   | .pub => Bytes.ascii decodePublicName
+
+/-- The cookie name `EncodePrivate`/`EncodePublic` authenticate under (`bk = []`: no block key). -/
+def Kind.encodeName (k : Kind) (mac : Mac) (hashKey bk : Bytes) : Bytes := k.encodeBase ++ nameSuffix mac hashKey bk
+
+def Kind.decodeName (k : Kind) (mac : Mac) (hashKey bk : Bytes) : Bytes := k.decodeBase ++ nameSuffix mac hashKey bk
 
 def Kind.reversesOnEncode : Kind → Bool
   | .priv => false
@@ -138,25 +151,26 @@ def Kind.checksCanonical : Kind → Bool
   | .priv => decodePrivateChecksCanonical
   | .pub => decodePublicChecksCanonical
 
-/-- `EncodePrivate` / `EncodePublic` (after serialisation and encryption). -/
-def encodeId (mac : Mac) (hashKey : Bytes) (k : Kind) (now : Nat) (value : Bytes) : Option Bytes :=
-  match cookieEncode mac hashKey k.encodeName now value with
+/-- `EncodePrivate` / `EncodePublic` (after serialisation and encryption); `bk` = block key,
+`[]` if none is configured. -/
+def encodeId (mac : Mac) (hashKey bk : Bytes) (k : Kind) (now : Nat) (value : Bytes) : Option Bytes :=
+  match cookieEncode mac hashKey (k.encodeName mac hashKey bk) now value with
   | none => none
   | some s => if k.reversesOnEncode then reverseId s else some s
 
 /-- `DecodePrivate` / `DecodePublic` up to the value bytes. -/
-def decodeValue (mac : Mac) (hashKey : Bytes) (k : Kind) (now : Int) (s : Bytes) : Option Bytes :=
+def decodeValue (mac : Mac) (hashKey bk : Bytes) (k : Kind) (now : Int) (s : Bytes) : Option Bytes :=
   if k.checksCanonical ∧ Base64.canonical Base64.url s = false then none
   else if k.reversesOnDecode then
     match reverseId s with
     | none => none
-    | some r => cookieDecode mac hashKey k.decodeName now r
-  else cookieDecode mac hashKey k.decodeName now s
+    | some r => cookieDecode mac hashKey (k.decodeName mac hashKey bk) now r
+  else cookieDecode mac hashKey (k.decodeName mac hashKey bk) now s
 
 /-- Full decode: `open_` = decrypt (if a block key is set) and deserialise. -/
-def decodeId (mac : Mac) (hashKey : Bytes) (open_ : Bytes → Option Bytes) (k : Kind) (now : Int) (s : Bytes) :
+def decodeId (mac : Mac) (hashKey bk : Bytes) (open_ : Bytes → Option Bytes) (k : Kind) (now : Int) (s : Bytes) :
     Option Bytes :=
-  match decodeValue mac hashKey k now s with
+  match decodeValue mac hashKey bk k now s with
   | none => none
   | some v => open_ v
 
@@ -183,6 +197,7 @@ def Cache.set (c : Cache) (key v : Bytes) : Cache := (key, v) :: Cache.remove c 
 
 structure Hub where
   hashKey : Bytes
+  blockKey : Bytes := []
   cache : Cache := []
 
 /-- `Hub.decodePrivateSessionId` / `Hub.decodePublicSessionId`. -/
@@ -195,12 +210,12 @@ def Hub.decode (mac : Mac) (open_ : Bytes → Option Bytes) (h : Hub) (k : Kind)
     | some d => (h, some d)
     | none =>
       if cacheFilledOnlyAfterSuccessfulDecode then
-        match decodeId mac h.hashKey open_ k now id with
+        match decodeId mac h.hashKey h.blockKey open_ k now id with
         | none => (h, none)
         | some d => ({ h with cache := h.cache.set key d }, some d)
       else
         -- a cache filled before the error check would store failures too
-        let r := decodeId mac h.hashKey open_ k now id
+        let r := decodeId mac h.hashKey h.blockKey open_ k now id
         ({ h with cache := h.cache.set key (r.getD []) }, r)
 
 /-- `Hub.invalidateSessionId`. -/
@@ -215,7 +230,7 @@ def Hub.setDecoded (h : Hub) (k : Kind) (id d : Bytes) : Hub :=
 session data `d` and pre-fill the cache with them.  `vp`, `vq` = the serialised
 (and encrypted: two `Encode` calls, two IVs) data. -/
 def Hub.register (mac : Mac) (h : Hub) (now : Nat) (vp vq d : Bytes) : Hub × Option (Bytes × Bytes) :=
-  match encodeId mac h.hashKey .priv now vp, encodeId mac h.hashKey .pub now vq with
+  match encodeId mac h.hashKey h.blockKey .priv now vp, encodeId mac h.hashKey h.blockKey .pub now vq with
   | some p, some q => ((h.setDecoded .priv p d).setDecoded .pub q d, some (p, q))
   | _, _ => (h, none)
 
